@@ -20,8 +20,8 @@ ASSUMPTIONS = [
 NSHARDS = {"quick": 64, "thorough": 128}
 BUDGET_S = {"quick": 240, "thorough": 2400}
 MIN_HITS = {
-    "quick": {"program": 120000, "exh": 120000, "cond": 300, "random": 1500, "ref_ok": 50000, "ref_fail": 15000, "op_148": 3000, "op_153": 150, "op_128": 200, "op_113": 8, "op_100": 150},
-    "thorough": {"program": 300000, "exh": 120000, "cond": 300, "random": 150000, "ref_ok": 100000, "ref_fail": 30000, "op_148": 3000, "op_153": 150, "op_128": 200, "op_113": 8, "op_100": 150},
+    'quick': {"program": 120000, "exh": 120000, "cond": 300, "random": 1500, "ref_ok": 50000, "ref_fail": 15000, "op_148": 3000, "op_153": 150, "op_128": 200, "op_113": 8, "op_100": 150},
+    'thorough': {"program": 539362, "exh": 78340, "cond": 222, "random": 460800, "ref_ok": 350901, "ref_fail": 188451, "op_148": 41827, "op_153": 28434, "op_128": 21555, "op_113": 22450, "op_100": 151784},
 }
 
 V15 = [b"", b"\x00", b"\x80", b"\x01", b"\x81", b"\x7f", b"\xff", b"\x80\x00", b"\xff\x7f", b"\xff\xff", b"\x01\x00", b"\x00\x00\x00\x80\x00", bytes(range(1, 9)) + b"\x10", b"\x04\x03\x02\x81", bytes((i * 7 + 1) & 0xFF for i in range(80))]
